@@ -217,6 +217,11 @@ def check(case, stats: Stats) -> None:
 
         convs = {"object": Converter.from_extended_prefix_map(as_dicts(data)), "shuffled": Converter.from_extended_prefix_map(as_dicts(shuffled)),
                  "records": Converter.from_extended_prefix_map(mk_records(data)), "load_extended_prefix_map": curies.load_extended_prefix_map(as_dicts(data))}
+        # "an iterable of Record objects or dictionaries": one-shot iterators, tuples and mixed streams denote the same converter
+        convs["generator-of-dicts"] = Converter.from_extended_prefix_map(x for x in as_dicts(data))
+        convs["iterator-of-records"] = Converter.from_extended_prefix_map(iter(mk_records(data)))
+        convs["tuple-of-dicts"] = Converter.from_extended_prefix_map(tuple(as_dicts(data)))
+        convs["mixed-map-object"] = Converter.from_extended_prefix_map(map(lambda t: t[1] if t[0] % 2 else mk_records([data[t[0]]])[0], enumerate(as_dicts(data))))
         s, pth = _via_files(as_dicts(data), Converter.from_extended_prefix_map, kind)
         convs.update({"str-path": s, "Path": pth})
         free = False
